@@ -167,6 +167,7 @@ def run_check(check, tier, seed, budget_s=None, workers=None, nplans=None, selft
     violations = []
     known_hits = {}
     harness = []
+    discarded = []
     evaluations = 0
     samples = []
     import random
@@ -205,7 +206,10 @@ def run_check(check, tier, seed, budget_s=None, workers=None, nplans=None, selft
                     try:
                         _, plan, out, vs = f.result()
                     except HarnessError as he:
-                        harness.append({"plan": i, "kind": he.kind, "detail": he.detail[-1500:]})
+                        if he.kind == "discard":
+                            discarded.append(i)
+                        else:
+                            harness.append({"plan": i, "kind": he.kind, "detail": he.detail[-1500:]})
                         continue
                     except Exception:
                         harness.append({"plan": i, "kind": "driver", "detail": traceback.format_exc()[-1500:]})
@@ -292,6 +296,10 @@ def run_check(check, tier, seed, budget_s=None, workers=None, nplans=None, selft
     cov["segments_run"] = segs
     cov["zygotes_spawned"] = spawned
     cov["harness_problems"] = harness[:5]
+    cov["plans_discarded_for_workload_bound"] = len(discarded)
+    if len(discarded) > max(3, 0.2 * (acc.get("plans", 0) + len(discarded))):
+        harness.append({"plan": -1, "kind": "too-many-discards",
+                        "detail": f"{len(discarded)} plans exceeded the workload bound"})
     cov["determinism_selftest"] = det
     cov["known_findings_seen"] = {k: h["n"] for k, h in known_hits.items()}
     cov["budget_exhausted"] = stop.is_set()
